@@ -1830,6 +1830,11 @@ func (e *Enc) execSelect(fr *Frame, x *ssa.Select, cur *pathState) {
 	// ghosts: received(ch) / lastrecv(ch) in specifications
 	ri := 2
 	for i, s := range x.States {
+		if s.Dir == types.SendOnly {
+			// a send case that is taken counts as a send through that channel field
+			e.chanFieldGhost(fr, cur, eq(idx, fmt.Sprint(i)), s.Chan, e.val(fr, s.Send), "chsent_", "chlastsent_")
+			continue
+		}
 		if s.Dir != types.RecvOnly {
 			continue
 		}
